@@ -1,5 +1,5 @@
 (* c12 model driver: glue only (parsing, N <-> int, printing).  One request per stdin line, one result per line.
-   run <Cmd> O <19 option tokens> P <summary tokens>   (see harness/py/c12_lib.py opts_tokens / pre_tokens)
+   run <Cmd> O <20 option tokens> P <summary tokens>   (see harness/py/c12_lib.py opts_tokens / pre_tokens)
      -> ok <Ok|Errors|NeedSync|Refused> E <effect>* R <report>* T <empty><zero><short><mismatch>
    effect = WData:<d>:<p>:<kind> | WParity:<l>:<s> | RszParity:<l> | WContent:<i> | WLock | WLog | WPool:<p> *)
 open C12_ext
@@ -51,10 +51,10 @@ let () =
         let o_force_realloc = nb () in let o_force_uuid = nb () in let o_audit = nb () in let o_prehash = nb () in
         let o_kill_after_sync = nb () in let o_force_content_write = nb () in let o_skip_content_write = nb () in
         let o_skip_lock = nb () in let o_blockstart = ni () in let o_blockcount = ni () in let o_fdisk = nb () in
-        let o_fdisk_parity = bits (next ()) in let o_ffile = nb () in let o_missing = nb () in let o_error = nb () in
+        let o_fdisk_parity = bits (next ()) in let o_ffile = nb () in let o_missing = nb () in let o_error = nb () in let o_plan_conflict = nb () in
         let o = { o_log; o_force_zero; o_force_empty; o_force_full; o_force_realloc; o_force_uuid; o_audit; o_prehash;
                   o_kill_after_sync; o_force_content_write; o_skip_content_write; o_skip_lock; o_blockstart; o_blockcount;
-                  o_fdisk; o_fdisk_parity; o_ffile; o_missing; o_error } in
+                  o_fdisk; o_fdisk_parity; o_ffile; o_missing; o_error; o_plan_conflict } in
         if next () <> "P" then failwith "P";
         let p_conf_ok = nb () in let p_lock_free = nb () in let p_ncontent = ni () in let p_level = ni () in
         let p_content_found = nb () in let p_content_ok = nb () in let p_read_need_write = nb () in
